@@ -1071,11 +1071,20 @@ type verifC27TxShape struct {
 // Both worlds record every answer next to the truth, for the oracle.
 type verifC27LiveNames struct {
 	d     *DB
-	seen  [3][]string // engine: the definitions the read connection has loaded
+	seen  [3][]string // the model: the definitions the read connection has loaded
 	asked bool
 	prev  [3][]string // the definitions when the database was asked the previous time
 	calls []verifC27NamesCall
 }
+
+// native runs: how often the real database answered differently from the engine's model of it
+var verifC27ModelOff int
+
+// verifC27ReadConnectionLags selects the engine's model of (*DB).ColumnNames: true = as observed on
+// the unrepaired code (the answer lags one question behind, see above); false = the answer is the
+// truth. Set it to false when (*DB).ColumnNames is repaired (the recorded defect then cannot be
+// reached any more, and TestVerifC27Calibrate tells if the model and the real database disagree).
+const verifC27ReadConnectionLags = true
 
 type verifC27NamesCall struct {
 	table  int
@@ -1108,14 +1117,18 @@ func (p *verifC27LiveNames) ColumnNames(table string) ([]string, error) {
 	}
 	var got []string
 	var err error
+	if !p.asked || !verifC27ReadConnectionLags {
+		p.seen = verifC27World.cols // its first statement: the definitions are loaded
+	}
+	model := append([]string{}, p.seen[t]...)
+	p.seen = verifC27World.cols
 	if !verifSymbolic() {
 		got, err = p.d.ColumnNames(table)
-	} else {
-		if !p.asked {
-			p.seen = verifC27World.cols // its first statement: the definitions are loaded
+		if err != nil || !verifC27SameNames(got, model) {
+			verifC27ModelOff++ // the real database answered differently from the model (TestVerifC27Calibrate)
 		}
-		got = append([]string{}, p.seen[t]...)
-		p.seen = verifC27World.cols
+	} else {
+		got = model
 	}
 	call := verifC27NamesCall{table: t, got: got, truth: verifC27World.cols[t]}
 	if err != nil {
